@@ -43,6 +43,9 @@ pub struct Profile {
     /// object-typed positions are often filled by a jump (`exit n`) instead of a value, so that some
     /// type instances are mentioned by declarations only
     pub jumpy: bool,
+    /// recursion depth of definitions: small literals, or up to 40 iterations (longer runs, more
+    /// allocation and release per execution)
+    pub deep_fuel: bool,
 }
 
 impl Profile {
@@ -69,12 +72,13 @@ impl Profile {
             poly: rng.chance(3, 4),
             long_names: rng.chance(1, 8),
             jumpy: rng.chance(1, 6),
+            deep_fuel: rng.chance(1, 5),
         }
     }
     pub fn describe(&self) -> String {
         format!(
-            "naming={:?} effects={:?} data={} codata={} defs={} budget={} many_params={} big={} control={} prints={} boundary={} main_args={} cns_fields={} poly={} long_names={} jumpy={}",
-            self.naming, self.effects, self.n_data, self.n_codata, self.n_defs, self.budget, self.many_params, self.big_xtors, self.control, self.prints, self.boundary_lits, self.main_args, self.cns_fields, self.poly, self.long_names, self.jumpy
+            "naming={:?} effects={:?} data={} codata={} defs={} budget={} many_params={} big={} control={} prints={} boundary={} main_args={} cns_fields={} poly={} long_names={} jumpy={} deep_fuel={}",
+            self.naming, self.effects, self.n_data, self.n_codata, self.n_defs, self.budget, self.many_params, self.big_xtors, self.control, self.prints, self.boundary_lits, self.main_args, self.cns_fields, self.poly, self.long_names, self.jumpy, self.deep_fuel
         )
     }
 }
@@ -675,7 +679,7 @@ impl<'r> Gen<'r> {
                             T::Lit(0)
                         }
                     } else {
-                        T::Lit(self.rng.range(0, 4))
+                        T::Lit(if self.prof.deep_fuel { self.rng.range(0, 40) } else { self.rng.range(0, 4) })
                     };
                     args[0] = Arg::T(fa);
                 }
